@@ -86,3 +86,103 @@ def typed_values(name):
     if enum:
         out.extend(list(enum) + [" %s " % enum[0], enum[0].upper(), "nosuch"])
     return out or None
+
+
+# ---------------------------------------------------------------- rule-guided documents
+VALID_VALUES = {
+    "yearDateContent": ["2017", "2017-05-01"], "timeContent": ["12:00:00"], "floatContent": ["0.5"],
+    "floatRangeContent_EW": ["-120.5", "0.0"], "floatRangeContent_NS": ["45.0", "0.0"],
+    "floatContent_Nonnegative": ["1.5", "0"], "intContent": ["3"], "uriContent": ["https://a.org/x"],
+}
+WORDS = ["turtle", "count", "Green sea turtle counts", "x", "a < b & c", "1", "EDI"]
+
+
+def _is_rule_child(spec):
+    return isinstance(spec, list) and spec and isinstance(spec[0], str)
+
+
+def _is_choice(spec):
+    return (isinstance(spec, list) and len(spec) >= 3 and isinstance(spec[0], list)
+            and isinstance(spec[-2], int) and not isinstance(spec[-2], bool))
+
+
+def gen_tree(rng, name, budget, depth=0):
+    """A literal spec [name, attrs, content, children] for element `name`, following the rule
+    the tables give it: required parts always, optional parts sometimes, repeated parts a few
+    times.  The harness's own walk over rules.json; the result is usually valid, not always
+    (it is a workload, not an oracle).  `budget` is a one-element list counting nodes left."""
+    budget[0] -= 1
+    r = RULES.get(MAP.get(name))
+    if r is None:
+        return [name, {}, None, []]
+    attrs = {}
+    for a, spec in r[0].items():
+        if (spec and spec[0]) or rng.random() < 0.25:
+            attrs[a] = rng.choice(spec[1:]) if len(spec) > 1 else rng.choice(["v", "id7", "en"])
+    content = None
+    cspec = r[2] if isinstance(r[2], dict) else {}
+    crs = cspec.get("content_rules", [])
+    if "content_enum" in cspec:
+        content = rng.choice(cspec["content_enum"])
+    else:
+        for c in crs:
+            if c in VALID_VALUES:
+                content = rng.choice(VALID_VALUES[c])
+        if content is None and "emptyContent" not in crs and ("nonEmptyContent" in crs or rng.random() < 0.6):
+            content = rng.choice(WORDS)
+    kids = []
+    lean = depth >= 3 or budget[0] < 8
+
+    def emit(spec):
+        if not spec or budget[0] <= 0:
+            return
+        if _is_rule_child(spec):
+            cname, lo, hi = spec[0], spec[-2], spec[-1]
+            # the table under test may be malformed; the workload generator must not care
+            lo = lo if isinstance(lo, int) and not isinstance(lo, bool) else 0
+            hi = hi if isinstance(hi, int) and not isinstance(hi, bool) else None
+            n = lo
+            if not lean and (hi is None or hi > lo) and rng.random() < 0.45:
+                n = lo + rng.choice([1, 1, 2])
+                if hi is not None:
+                    n = min(n, hi)
+            for _ in range(n):
+                if budget[0] <= 0 and lo == 0:
+                    break
+                kids.append(gen_tree(rng, cname, budget, depth + 1))
+        elif _is_choice(spec):
+            lo, hi = spec[-2], spec[-1]
+            hi = hi if isinstance(hi, int) and not isinstance(hi, bool) else None
+            n = lo
+            if not lean and (hi is None or hi > lo) and rng.random() < 0.4:
+                n = lo + 1
+            alts = spec[:-2]
+            for _ in range(n):
+                # prefer alternatives other than a bare references element
+                pool = [a for a in alts if not (_is_rule_child(a) and a[0] == "references")] or alts
+                emit(rng.choice(pool))
+        else:
+            for part in spec:
+                emit(part)
+
+    if depth < 7:
+        emit(r[1])
+    if content is not None and kids and "emptyContent" not in crs and rng.random() < 0.7:
+        content = None
+    return [name, attrs, content, kids]
+
+
+_WITH_CHILDREN = sorted(n for n in MAP if RULES.get(MAP[n]) and RULES[MAP[n]][1])
+_ALL = sorted(MAP)
+
+
+def safe_gen_tree(rng, name, budget):
+    try:
+        return gen_tree(rng, name, budget)
+    except Exception:       # noqa: BLE001  a malformed table must not stop the workload
+        return [name, {}, None, []]
+
+
+def random_element(rng):
+    """Any known element name, those whose rule has a children section preferred."""
+    return rng.choice(_WITH_CHILDREN) if rng.random() < 0.75 else rng.choice(_ALL)
